@@ -44,58 +44,95 @@ theorem sim_list (ih : SimAt P n) : ∀ {es : List Expr} {env : Env} {t : Trace}
     refine Res.bind_eq_some.mpr ⟨t1, gv, t3 ++ [], g_lift_expr _ (by omega) hg1, ?_, rfl⟩
     exact Res.bind_eq_some.mpr ⟨t3, gvs, [], g_lift_list _ (by omega) hg2, rfl, rfl⟩
 
-/-- the atomic given arguments of a partial application: no output, and their lowering evaluates (as
-atoms) to related values in any related environment -/
-theorem sim_atoms (rs : List String) : ∀ {es : List Expr} {env : Env} {t : Trace} {vs : List SVal},
-    evalList (evalN P n).expr env es = some (t, vs) → es.all (isAtomFor rs) = true → ∀ {genv : GEnv}, ERel env genv →
-      t = [] ∧ ∃ gvs, gatomEvals genv (lowerL es) = some gvs ∧ VRels vs gvs ∧
-        ∀ ge ∈ lowerL es, isGAtomFor rs ge = true := by
+/-- a pure expression evaluates without output, and its lowering evaluates (as a pure Go-core
+expression, within the same depth) to a related value in any related environment -/
+theorem sim_pure (rs : List String) : ∀ (n : Nat) {e : Expr} {env : Env} {t : Trace} {v : SVal},
+    (evalN P n).expr env e = some (t, v) → isPureFor rs e = true → ∀ {genv : GEnv}, ERel env genv →
+      t = [] ∧ ∃ gv, gpureEvalN n genv (lowerE e) = some gv ∧ VRel v gv ∧ isGPureFor rs (lowerE e) = true := by
+  intro n
+  induction n with
+  | zero => intro e env t v h; simp [evalN] at h
+  | succ k ih =>
+    have hlist : ∀ {es : List Expr} {env : Env} {t : Trace} {vs : List SVal},
+        evalList (evalN P k).expr env es = some (t, vs) → isPureForL rs es = true → ∀ {genv : GEnv}, ERel env genv →
+          t = [] ∧ ∃ gvs, optList (gpureEvalN k genv) (lowerL es) = some gvs ∧ VRels vs gvs ∧
+            isGPureForL rs (lowerL es) = true := by
+      intro es
+      induction es with
+      | nil =>
+        intro env t vs h _ genv _
+        simp [evalList, Res.pure] at h
+        obtain ⟨rfl, rfl⟩ := h
+        exact ⟨rfl, [], rfl, .nil, rfl⟩
+      | cons e es ihl =>
+        intro env t vs h hp genv he
+        simp only [isPureForL, Bool.and_eq_true] at hp
+        simp only [evalList] at h
+        obtain ⟨t1, v, t2, h1, h2, rfl⟩ := Res.bind_eq_some.mp h
+        obtain ⟨t3, vs', t4, h3, h4, rfl⟩ := Res.bind_eq_some.mp h2
+        obtain ⟨rfl, rfl⟩ := Res.pure_eq_some.mp h4
+        obtain ⟨rfl, gv, hg1, hr1, hp1⟩ := ih h1 hp.1 he
+        obtain ⟨rfl, gvs, hg2, hr2, hp2⟩ := ihl h3 hp.2 he
+        refine ⟨rfl, gv :: gvs, ?_, .cons hr1 hr2, ?_⟩
+        · simp [lowerL, optList, hg1, hg2]
+        · simp [lowerL, isGPureForL, hp1, hp2]
+    intro e env t v h hp genv he
+    have hstep : stepExpr (evalN P k) P env e = some (t, v) := h
+    cases e with
+    | lit l =>
+      simp [stepExpr, Res.pure] at hstep
+      obtain ⟨rfl, rfl⟩ := hstep
+      exact ⟨rfl, .fo (.lit l), by simp [lowerE, gpureEvalN], .fo _, by simp [lowerE, isGPureFor]⟩
+    | var x =>
+      simp only [stepExpr, ofOpt] at hstep
+      cases hl : lookup env x with
+      | none => simp [hl] at hstep
+      | some v' =>
+        simp [hl] at hstep
+        obtain ⟨rfl, rfl⟩ := hstep
+        obtain ⟨gv, hgl, hrv⟩ := he.lookup hl
+        exact ⟨rfl, gv, by simp [lowerE, gpureEvalN, hgl], hrv, by simpa [lowerE, isGPureFor, isPureFor] using hp⟩
+    | prim p args =>
+      simp only [isPureFor, Bool.and_eq_true] at hp
+      simp only [stepExpr] at hstep
+      obtain ⟨t1, vs, t2, h1, h2, rfl⟩ := Res.bind_eq_some.mp hstep
+      obtain ⟨rfl, gvs, hg, hr, hpl⟩ := hlist h1 hp.2 he
+      split at h2
+      · rename_i fos hfos
+        obtain ⟨t3, v', t4, h3, h4, rfl⟩ := Res.bind_eq_some.mp h2
+        obtain ⟨rfl, rfl⟩ := Res.pure_eq_some.mp h4
+        have ht3 := primFO_silent hp.1 h3
+        subst ht3
+        refine ⟨rfl, .fo v', ?_, .fo _, ?_⟩
+        · simp [lowerE, gpureEvalN, hg, ← hr.toFOs, hfos, h3]
+        · simp [lowerE, isGPureFor, hp.1, hpl]
+      · cases h2
+    | _ => simp [isPureFor] at hp
+
+/-- the pure given arguments of a partial application -/
+theorem sim_pures (rs : List String) (n : Nat) : ∀ {es : List Expr} {env : Env} {t : Trace} {vs : List SVal},
+    evalList (evalN P n).expr env es = some (t, vs) → isPureForL rs es = true → ∀ {genv : GEnv}, ERel env genv →
+      t = [] ∧ ∃ gvs, optList (gpureEvalN n genv) (lowerL es) = some gvs ∧ VRels vs gvs ∧
+        isGPureForL rs (lowerL es) = true := by
   intro es
   induction es with
   | nil =>
     intro env t vs h _ genv _
     simp [evalList, Res.pure] at h
     obtain ⟨rfl, rfl⟩ := h
-    exact ⟨rfl, [], rfl, .nil, by simp [lowerL]⟩
+    exact ⟨rfl, [], rfl, .nil, rfl⟩
   | cons e es ihl =>
-    intro env t vs h hat genv he
-    simp only [List.all_cons, Bool.and_eq_true] at hat
+    intro env t vs h hp genv he
+    simp only [isPureForL, Bool.and_eq_true] at hp
     simp only [evalList] at h
     obtain ⟨t1, v, t2, h1, h2, rfl⟩ := Res.bind_eq_some.mp h
     obtain ⟨t3, vs', t4, h3, h4, rfl⟩ := Res.bind_eq_some.mp h2
     obtain ⟨rfl, rfl⟩ := Res.pure_eq_some.mp h4
-    obtain ⟨rfl, gvs, hg, hr, hall⟩ := ihl h3 hat.2 he
-    cases n with
-    | zero => simp [evalN] at h1
-    | succ k =>
-      have hstep : stepExpr (evalN P k) P env e = some (t1, v) := h1
-      cases e with
-      | lit l =>
-        simp [stepExpr, Res.pure] at hstep
-        obtain ⟨rfl, rfl⟩ := hstep
-        refine ⟨rfl, .fo (.lit l) :: gvs, ?_, .cons (.fo _) hr, ?_⟩
-        · simp [lowerL, lowerE, gatomEvals, gatomEval, hg]
-        · intro ge hge
-          simp only [lowerL, lowerE, List.mem_cons] at hge
-          rcases hge with rfl | hge
-          · rfl
-          · exact hall ge hge
-      | var x =>
-        simp only [stepExpr, ofOpt] at hstep
-        cases hl : lookup env x with
-        | none => simp [hl] at hstep
-        | some v' =>
-          simp [hl] at hstep
-          obtain ⟨rfl, rfl⟩ := hstep
-          obtain ⟨gv, hgl, hrv⟩ := he.lookup hl
-          refine ⟨rfl, gv :: gvs, ?_, .cons hrv hr, ?_⟩
-          · simp [lowerL, lowerE, gatomEvals, gatomEval, hg, hgl]
-          · intro ge hge
-            simp only [lowerL, lowerE, List.mem_cons] at hge
-            rcases hge with rfl | hge
-            · simpa [isGAtomFor, isAtomFor] using hat.1
-            · exact hall ge hge
-      | _ => simp [isAtomFor] at hat
+    obtain ⟨rfl, gv, hg1, hr1, hp1⟩ := sim_pure rs n h1 hp.1 he
+    obtain ⟨rfl, gvs, hg2, hr2, hp2⟩ := ihl h3 hp.2 he
+    refine ⟨rfl, gv :: gvs, ?_, .cons hr1 hr2, ?_⟩
+    · simp [lowerL, optList, hg1, hg2]
+    · simp [lowerL, isGPureForL, hp1, hp2]
 
 /-- union match -/
 theorem sim_match (ih : SimAt P n) {env : Env} {t : Expr} {arms : List Arm} {tr : Trace} {v : SVal}
